@@ -11,6 +11,7 @@ import (
 	"errors"
 	"fmt"
 	"math/rand"
+	"os"
 	"sync"
 	"testing"
 	"testing/synctest"
@@ -41,6 +42,7 @@ type vfGateRun struct {
 	mu     sync.Mutex // orders log entries with the gate operations they describe
 	events []map[string]any
 	busy   map[int]bool
+	inWal  map[int]bool // the blocked call of p is a cancellable wait (waitAndLock / get)
 	holder int
 	ctxs   map[int]context.Context
 	cancel map[int]context.CancelFunc
@@ -59,9 +61,11 @@ func (r *vfGateRun) settle() {
 		switch ev["e"] {
 		case "acq":
 			r.busy[ev["p"].(int)] = false
+			r.inWal[ev["p"].(int)] = false
 			r.holder = ev["p"].(int)
 		case "fail", "ret":
 			r.busy[ev["p"].(int)] = false
+			r.inWal[ev["p"].(int)] = false
 		case "lis":
 			if ev["acquired"].(bool) {
 				r.holder = ev["p"].(int)
@@ -80,10 +84,20 @@ func (r *vfGateRun) settle() {
 	r.env.Emit(r.t, map[string]any{"e": "q", "blocked": blocked})
 }
 
+// waiter returns a process blocked in a cancellable wait whose context is still live (0 if none).
+func (r *vfGateRun) waiter() int {
+	for p := 1; p <= 4; p++ {
+		if r.busy[p] && r.inWal[p] && !r.done[p] {
+			return p
+		}
+	}
+	return 0
+}
+
 var vfErrClose = [3]error{nil, errors.New("close-1"), errors.New("close-2")}
 
 func vfGateScenario(t *testing.T, env *vfEnv, tn int, rnd *rand.Rand, kind string) {
-	r := &vfGateRun{env: env, t: tn, busy: map[int]bool{}, ctxs: map[int]context.Context{}, cancel: map[int]context.CancelFunc{}, done: map[int]bool{}}
+	r := &vfGateRun{env: env, t: tn, busy: map[int]bool{}, inWal: map[int]bool{}, ctxs: map[int]context.Context{}, cancel: map[int]context.CancelFunc{}, done: map[int]bool{}}
 	nproc := 2 + rnd.Intn(3)
 	for p := 1; p <= nproc; p++ {
 		r.ctxs[p], r.cancel[p] = context.WithCancel(context.Background())
@@ -127,6 +141,7 @@ func vfGateScenario(t *testing.T, env *vfEnv, tn int, rnd *rand.Rand, kind strin
 					continue
 				}
 				r.busy[p] = true
+				r.inWal[p] = true
 				env.Emit(tn, map[string]any{"e": "call", "p": p, "op": "wal"})
 				ctx := r.ctxs[p]
 				go func() {
@@ -146,6 +161,17 @@ func vfGateScenario(t *testing.T, env *vfEnv, tn int, rnd *rand.Rand, kind strin
 				r.mu.Lock()
 				acq := vfGLis(g)
 				r.log(map[string]any{"e": "lis", "p": p, "acquired": acq})
+				r.mu.Unlock()
+			case x < 68 && r.holder != 0 && r.waiter() != 0:
+				// hand-off race: the holder unlocks with the condition set and the context of a
+				// blocked waiter is cancelled before that waiter has run again
+				w, h := r.waiter(), r.holder
+				r.done[w] = true
+				r.mu.Lock()
+				r.log(map[string]any{"e": "unlock", "p": h, "set": true})
+				vfGUnlock(g, true)
+				r.log(map[string]any{"e": "cancel", "p": w})
+				r.cancel[w]()
 				r.mu.Unlock()
 			case x < 90: // unlock by the holder
 				if r.holder == 0 {
@@ -167,6 +193,19 @@ func vfGateScenario(t *testing.T, env *vfEnv, tn int, rnd *rand.Rand, kind strin
 			}
 		} else {
 			switch {
+			case x < 10 && r.waiter() != 0:
+				// hand-off race: an item is put and the context of a blocked getter is cancelled
+				// before that getter has run again
+				w := r.waiter()
+				r.done[w] = true
+				v := nextv
+				nextv++
+				r.mu.Lock()
+				ok := vfQPut(q, v)
+				r.log(map[string]any{"e": "put", "v": v, "ok": ok})
+				r.log(map[string]any{"e": "cancel", "p": w})
+				r.cancel[w]()
+				r.mu.Unlock()
 			case x < 35: // put
 				v := nextv
 				nextv++
@@ -179,6 +218,7 @@ func vfGateScenario(t *testing.T, env *vfEnv, tn int, rnd *rand.Rand, kind strin
 					continue
 				}
 				r.busy[p] = true
+				r.inWal[p] = true
 				env.Emit(tn, map[string]any{"e": "call", "p": p, "op": "get"})
 				ctx := r.ctxs[p]
 				go func() {
@@ -263,6 +303,7 @@ func TestVerifGate(t *testing.T) {
 		return
 	}
 	n := env.Int("traces", 60)
+	abnormal := false
 	for tn := 1; tn <= n; tn++ {
 		if !env.Only(tn) {
 			continue
@@ -276,6 +317,7 @@ func TestVerifGate(t *testing.T) {
 			synctest.Test(t, func(t *testing.T) { vfGateScenario(t, env, tn, rnd, kind) })
 		})
 		if hung != "" {
+			abnormal = true
 			env.Emit(tn, map[string]any{"e": "panic", "msg": hung})
 			if hung == "hang" {
 				env.Hung = true
@@ -284,4 +326,9 @@ func TestVerifGate(t *testing.T) {
 		}
 	}
 	env.Finish(nil)
+	if abnormal {
+		// A bubble that ended in a deadlock leaves goroutines blocked for ever; the package's
+		// TestMain would wait for them until the go test timeout. The results are complete.
+		os.Exit(1)
+	}
 }
